@@ -1257,6 +1257,8 @@ def r13_mask_combination(repo: Repo, rep):
 
 
 def run(repo: Repo, rep):
+    from .c17 import r1b_motion_boundaries  # the boundary of a moved domain is tested with the SAME motion: the pivot / translation must reach `.boundary`
+    r1b_motion_boundaries(repo, rep)
     r13_mask_combination(repo, rep)
     r14_scale_of_tolerances(repo, rep)
     from .c06 import r7b_edge_table  # the boundary of a polygon is the union of its sides: closeness is tested against the lines that carry them and no other
